@@ -51,6 +51,11 @@ Empty == [x \in {} |-> 0]
 Max(x, y) == IF x > y THEN x ELSE y
 Min(x, y) == IF x < y THEN x ELSE y
 Abs(x) == IF x < 0 THEN 0 - x ELSE x
+\* products x * y over all ordered pairs of elements with x > y, in the order of two nested loops
+RECURSIVE PairRow(_, _), PairRows(_, _)
+PairRow(x, ys) == IF ys = <<>> THEN <<>> ELSE (IF x > Head(ys) THEN <<x * Head(ys)>> ELSE <<>>) \o PairRow(x, Tail(ys))
+PairRows(rest, all) == IF rest = <<>> THEN <<>> ELSE PairRow(Head(rest), all) \o PairRows(Tail(rest), all)
+PairProducts(xs) == PairRows(xs, xs)
 RECURSIVE RangeSeq(_, _, _)
 RangeSeq(lo, hi, step) == IF lo >= hi THEN <<>> ELSE <<lo>> \o RangeSeq(lo + step, hi, step)     \* range(lo, hi, step), step > 0
 SumRange(lo, hi, step) == Sum(RangeSeq(lo, hi, step))
@@ -84,7 +89,7 @@ Ops ==
   \cup {[k |-> "sslice", lo |-> r[1], hi |-> r[2]] : r \in {<<1, -1>>, <<0, 2>>, <<1, 3>>}}
   \* tuples, scalars, calls
   \cup {[k |-> "tuple"], [k |-> "tupleidx"], [k |-> "untuple"], [k |-> "ternary"], [k |-> "max"], [k |-> "min"], [k |-> "abs"], [k |-> "addn"], [k |-> "closure"], [k |-> "defarg"],
-        [k |-> "castint"], [k |-> "caststr"], [k |-> "tryraise"], [k |-> "breakcont"], [k |-> "range3"], [k |-> "range1"], [k |-> "range2"], [k |-> "range2len"], [k |-> "range3ab"], [k |-> "rangecomp1"], [k |-> "rangecomp2"]}
+        [k |-> "castint"], [k |-> "caststr"], [k |-> "tryraise"], [k |-> "breakcont"], [k |-> "range3"], [k |-> "kwreorder"], [k |-> "kwskip"], [k |-> "swap"], [k |-> "dblcomp"], [k |-> "dblcompcond"], [k |-> "closureloop"], [k |-> "chaincmp"], [k |-> "andor"], [k |-> "range1"], [k |-> "range2"], [k |-> "range2len"], [k |-> "range3ab"], [k |-> "rangecomp1"], [k |-> "rangecomp2"]}
 
 Undef == [undef |-> TRUE]
 IsUndef(st) == "undef" \in DOMAIN st
@@ -167,6 +172,14 @@ Apply(op, st) ==
     [] k = "tryraise" -> [st EXCEPT !.n = IF st.a > 0 THEN 5 ELSE st.n]                       \* try: if a > 0: raise ... except: n = 5
     [] k = "breakcont" -> [st EXCEPT !.n = st.n + Sum(SelectSeq(SubSeq(xs, 1, IF Contains(xs, 7) THEN (CHOOSE i \in DOMAIN xs : xs[i] = 7 /\ \A j \in 1..(i - 1) : xs[j] # 7) - 1 ELSE Len(xs)), LAMBDA x : x # st.a))]
     [] k = "range3" -> [st EXCEPT !.n = st.n + 6]                                             \* for i in range(0, 6, 2): n += i
+    [] k = "kwreorder" -> [st EXCEPT !.n = st.b * 100 + 2 * 10 + 1]                            \* def kw(gx, gy=5, gz=7): gx*100 + gy*10 + gz ; n = kw(b, gz=1, gy=2)
+    [] k = "kwskip" -> [st EXCEPT !.n = st.b * 100 + 5 * 10 + 1]                               \* n = ks(b, gz=1): gy keeps its default
+    [] k = "swap" -> IF Len(xs) >= 2 THEN [st EXCEPT !.xs = [xs EXCEPT ![1] = xs[2], ![2] = xs[1]]] ELSE Undef
+    [] k = "dblcomp" -> [st EXCEPT !.n = Len(xs) * Len(xs)]
+    [] k = "dblcompcond" -> [st EXCEPT !.ys = PairProducts(xs)]
+    [] k = "closureloop" -> [st EXCEPT !.n = st.n + Sum(xs) + Len(xs)]                         \* for cx in xs: def addc(z): return z + cx ; n += addc(1)
+    [] k = "chaincmp" -> [st EXCEPT !.bb = (st.a < st.b /\ st.b < 7)]
+    [] k = "andor" -> [st EXCEPT !.bb = (st.a = st.b \/ ~(st.a > 1 /\ st.b > 1))]
     [] k = "range1" -> [st EXCEPT !.n = st.n + SumRange(0, st.b, 1)]
     [] k = "range2" -> [st EXCEPT !.n = st.n + SumRange(st.a, st.b, 1)]                       \* empty when a >= b
     [] k = "range2len" -> [st EXCEPT !.n = st.n + Sum(SubSeq(xs, 2, Len(xs)))]                \* for i in range(1, len(xs)): n += xs[i]
@@ -253,6 +266,14 @@ Text(op) ==
     [] k = "tryraise" -> Line("try:") \o Line("\tif a > 0:") \o Line("\t\traise RuntimeError('m')") \o Line("except RuntimeError as ex:") \o Line("\tn = 5")
     [] k = "breakcont" -> Line("for bx in xs:") \o Line("\tif bx == a:") \o Line("\t\tcontinue") \o Line("\tif bx == 7:") \o Line("\t\tbreak") \o Line("\tn += bx")
     [] k = "range3" -> Line("for ri in range(0, 6, 2):") \o Line("\tn += ri")
+    [] k = "kwreorder" -> Line("def kw(gx: int, gy: int = 5, gz: int = 7) -> int:") \o Line("\treturn gx * 100 + gy * 10 + gz") \o Line("n = kw(b, gz=1, gy=2)")
+    [] k = "kwskip" -> Line("def ks(gx: int, gy: int = 5, gz: int = 7) -> int:") \o Line("\treturn gx * 100 + gy * 10 + gz") \o Line("n = ks(b, gz=1)")
+    [] k = "swap" -> Line("xs[0], xs[1] = xs[1], xs[0]")
+    [] k = "dblcomp" -> Line("n = len([1 for dx in xs for dy in xs])")
+    [] k = "dblcompcond" -> Line("ys = [ex * ey for ex in xs for ey in xs if ex > ey]")
+    [] k = "closureloop" -> Line("for cx in xs:") \o Line("\tdef addc(cz: int) -> int:") \o Line("\t\treturn cz + cx") \o Line("\tn += addc(1)")
+    [] k = "chaincmp" -> Line("bb = a < b < 7")
+    [] k = "andor" -> Line("bb = a == b or not (a > 1 and b > 1)")
     [] k = "range1" -> Line("for r1 in range(b):") \o Line("\tn += r1")
     [] k = "range2" -> Line("for r2 in range(a, b):") \o Line("\tn += r2")
     [] k = "range2len" -> Line("for r3 in range(1, len(xs)):") \o Line("\tn += xs[r3]")
@@ -285,7 +306,7 @@ Show(st) == IF IsUndef(st) THEN [undef |-> TRUE]
 Outcomes(ii, ops) == [j \in DOMAIN Args |-> Show(Run(ops, InitSt(ii, Args[j][1], Args[j][2])))]
 
 \* operations that declare a name (annotated local, nested function) occur at most once per program
-Declaring == {"zipcomp", "nested", "nestedapp", "dictlist", "dintkey", "untuple", "closure", "defarg"}
+Declaring == {"kwreorder", "kwskip", "closureloop", "zipcomp", "nested", "nestedapp", "dictlist", "dintkey", "untuple", "closure", "defarg"}
 Programs == {p \in [1..K -> Ops] : \A i, j \in 1..K : (i < j /\ p[i].k \in Declaring) => p[j].k # p[i].k}
 \* every value stays inside the agreement subset (|v| < 2^20) and no operation leaves the state space
 Bounded == \A ii \in DOMAIN InitText : \A p \in Programs : \A j \in DOMAIN Args :
